@@ -32,6 +32,8 @@ type SiteRule struct {
 	Var    string // let name / ghost name
 	Cl     Clause
 	Upd    *GhostUpdate
+	Fired  int
+	Owner  string
 }
 
 type Contract struct {
@@ -58,6 +60,7 @@ type Contract struct {
 	Ghosts     map[string]string // ghost variables local to the function: name -> sort
 	GhostInit  map[string]string
 	Updates    []*GhostUpdate
+	Safety     bool
 }
 
 // GhostUpdate: `update m(key) := value` — effect of a contract on a ghost map (evaluated in the pre-state).
@@ -96,6 +99,8 @@ type SpecFile struct {
 	Order      []string
 	GhostMaps  map[string]*Decl
 	Aliases    map[string]string
+	SharedTypes map[string]bool
+	Immutable  map[string]bool
 }
 
 type PredDecl struct {
@@ -107,7 +112,7 @@ type PredDecl struct {
 
 func NewSpecFile() *SpecFile {
 	return &SpecFile{Contracts: map[string]*Contract{}, Preds: map[string]*PredDecl{}, SpecFns: map[string]*Decl{},
-		Properties: map[string]*PropertyDecl{}, Unsync: map[string]string{}, FuncTypes: map[string]*Contract{}, GhostMaps: map[string]*Decl{}, Aliases: map[string]string{}}
+		Properties: map[string]*PropertyDecl{}, Unsync: map[string]string{}, FuncTypes: map[string]*Contract{}, GhostMaps: map[string]*Decl{}, Aliases: map[string]string{}, SharedTypes: map[string]bool{}, Immutable: map[string]bool{}}
 }
 
 // ---------- lexer ----------
@@ -541,6 +546,16 @@ func (sf *SpecFile) ParseText(path, text string) error {
 			}
 			sf.SpecFns[name] = &Decl{Name: name, Args: args, Res: strings.TrimSpace(rest[j+1:])}
 			cur = nil
+		case "sharedtype":
+			sf.SharedTypes[strings.TrimSpace(rest)] = true
+			cur = nil
+		case "immutable":
+			for _, f := range strings.Split(rest, ",") {
+				if f = strings.TrimSpace(f); f != "" {
+					sf.Immutable[f] = true
+				}
+			}
+			cur = nil
 		case "alias":
 			parts := strings.SplitN(rest, "=", 2)
 			if len(parts) != 2 {
@@ -650,7 +665,7 @@ func (sf *SpecFile) ParseText(path, text string) error {
 			}
 		case "global":
 			cur = nil
-			r, err := parseSiteRule(rest)
+			r, err := parseSiteRule(strings.TrimPrefix(rest, "at "))
 			if err != nil {
 				return errf("%v", err)
 			}
@@ -691,6 +706,8 @@ func (sf *SpecFile) ParseText(path, text string) error {
 				cur.Inline = true
 			case "initphase":
 				cur.InitPhase = true
+			case "safety":
+				cur.Safety = true
 			case "pure":
 				cur.Pure = rest
 			case "havoc":
@@ -740,6 +757,7 @@ func (sf *SpecFile) ParseText(path, text string) error {
 				if err != nil {
 					return errf("%v", err)
 				}
+				r.Owner = cur.Func
 				cur.Sites = append(cur.Sites, r)
 			default:
 				return errf("unknown clause %q", word)
